@@ -192,6 +192,16 @@ def ob_wiring(k, mode, log):
             if mm:
                 return [struct(oid, False, 'returned value is not %s: %s' % ('exp(formula)' if log else 'the formula result', mm), fn,
                                witness=_replay_wiring(k, mode, log))]
+            # fallback: entries flagged as failed are replaced by the result on the *finest* grid (smallest x), whatever the list order
+            if k > 1:
+                sets = [e for e in p.log if e[0] == 'setitem' and e[1] is p.value]
+                best = 'getitem([%s], call:lib:numpy.argmin([%s]))' % (', '.join(vrepr(_strip(y)) for y in want_ys), ', '.join(vrepr(x) for x in want_xs))
+                if log:
+                    best = 'call:numpy.exp(%s)' % best
+                okfb = len(sets) == 1 and vrepr(_strip(sets[0][3])).startswith('getitem(%s, ' % best)
+                if not okfb:
+                    return [struct(oid, False, 'fallback value is not the finest-grid result %s: %s' % (best[:80], [vrepr(_strip(s_[3]))[:160] for s_ in sets]), fn,
+                                   finding_key='C07/extrap_func/fallback-source')]
             # labels
             pid = p.value.attrs.get('pop_ids') if isinstance(p.value, Tm) else None
             ok = isinstance(pid, Tm) and pid.op == 'pop_ids' and pid.args[0] is pts[0]
